@@ -3,7 +3,7 @@ wavespectra is never imported or executed) and NON-GATING: it is recorded in the
 
 1. clang static analyzer cross-reference on the C sources (properties with a native half).
 2. Stability of the verdict over the behaviour-preserving rewrites of selftest/run.py: the whole rule set of the property is
-   re-run on nine rewritten copies of the tree (renamed locals, swapped commutative operands, split returns, positional dims,
+   re-run on fifteen rewritten copies of the tree (renamed locals, swapped operands, flipped comparisons, split returns, hoisted constants, inserted log lines, positional dims,
    re-formatted / comment-stripped / blank-line-shifted sources).  A property that holds on /repo holds on each rewrite, so the
    expected result is the identical verdict; any difference is a defect of the CHECKER and is reported as such.
 """
